@@ -182,6 +182,8 @@ impl Opcode for CallDataCopy {
 
             for (count, internal_offset) in (0..size_limit).step_by(32).enumerate() {
                 // If we have been told to stop, stop and return an error
+                #[cfg(smlxl_storage_layout_extractor_verif)]
+                crate::verif_hooks::poll_site("op.calldatacopy");
                 if count % polling_interval == 0 && vm.watchdog().should_stop() {
                     Err(Error::StoppedByWatchdog).locate(instruction_pointer)?;
                 }
@@ -338,6 +340,8 @@ impl Opcode for CodeCopy {
 
             for (count, internal_offset) in (0..size_limit).step_by(32).enumerate() {
                 // If we have been told to stop, stop and return an error
+                #[cfg(smlxl_storage_layout_extractor_verif)]
+                crate::verif_hooks::poll_site("op.codecopy");
                 if count % polling_interval == 0 && vm.watchdog().should_stop() {
                     Err(Error::StoppedByWatchdog).locate(instruction_pointer)?;
                 }
@@ -507,6 +511,8 @@ impl Opcode for ExtCodeCopy {
 
             for (count, internal_offset) in (0..size_limit).step_by(32).enumerate() {
                 // If we have been told to stop, stop and return an error
+                #[cfg(smlxl_storage_layout_extractor_verif)]
+                crate::verif_hooks::poll_site("op.extcodecopy");
                 if count % polling_interval == 0 && vm.watchdog().should_stop() {
                     Err(Error::StoppedByWatchdog).locate(instruction_pointer)?;
                 }
@@ -674,6 +680,8 @@ impl Opcode for ReturnDataCopy {
 
             for (count, internal_offset) in (0..size_limit).step_by(32).enumerate() {
                 // If we have been told to stop, stop and return an error
+                #[cfg(smlxl_storage_layout_extractor_verif)]
+                crate::verif_hooks::poll_site("op.returndatacopy");
                 if count % polling_interval == 0 && vm.watchdog().should_stop() {
                     Err(Error::StoppedByWatchdog).locate(instruction_pointer)?;
                 }
